@@ -117,18 +117,25 @@ def run(ctx):
     # LEVEL-COH
     mask_loop, sum_loop = (lv_loops + [None, None])[:2]
     if mask_loop is not None:
-        t = {norm(n.targets[0]): norm(n.value) for n in ast.walk(mask_loop) if isinstance(n, ast.Assign)}
-        ok = t.get("next_lv_factors") == "pck.grid_sizes[lv + 1] // pck.box_arrays[lv + 1].shape" and \
-            t.get("next_level_boxes", "").startswith("pck.box_arrays[lv + 1][") and \
-            t.get("barr_starts") == "np.array(indices[0] * 2 // next_lv_factors, dtype=int)" and \
-            t.get("barr_ends") == "np.array(indices[1] * 2 // next_lv_factors, dtype=int)" and \
-            t.get("bcast_factor") == "next_lv_factors[0] // 2" and t.get("next_lv_map") == "expand_array3d(next_level_boxes, bcast_factor)"
+        # what the mask is cut from, with every local substituted (naming / hoisting independent)
+        denv = rules.local_env(vi.node)
+        srcs = [rules.deep(n.value, denv, vi.params) for n in ast.walk(mask_loop)
+                if isinstance(n, ast.Assign) and norm(n.targets[0]) == "next_lv_map"]
+        F = "(pck.grid_sizes[lv + 1] // pck.box_arrays[lv + 1].shape)"
+        lo = f"np.array(indices[0] * 2 // {F}, dtype=int)"
+        hi = f"np.array(indices[1] * 2 // {F}, dtype=int)"
+        want = (f"expand_array3d(pck.box_arrays[lv + 1][{lo}[0]:{hi}[0] + 1, {lo}[1]:{hi}[1] + 1, "
+                f"{lo}[2]:{hi}[2] + 1], {F}[0] // 2)")
         inner = [n for n in mask_loop.body if isinstance(n, ast.For)]
-        ok = ok and len(inner) == 1 and norm(inner[0].iter) == "enumerate(pck.cells[lv]['indexes'])"
-        ctx.check(ok, f"{P}.LEVEL-COH", site,
+        it_ok = len(inner) == 1 and (
+            (norm(inner[0].iter) == "enumerate(pck.cells[lv]['indexes'])" and isinstance(inner[0].target, ast.Tuple)
+             and norm(inner[0].target.elts[1]) == "indices") or
+            (norm(inner[0].iter) == "pck.cells[lv]['indexes']" and norm(inner[0].target) == "indices"))
+        ctx.check(srcs == [want] and it_ok, f"{P}.LEVEL-COH", site,
                   "the mask of a level-lv box is cut from the occupancy array of level lv+1 (frozen exception) at the "
                   "box's index range scaled by 2, and expanded back to level-lv cells",
-                  f"mask construction is {t}", key="masks", where=loc(vi, mask_loop))
+                  f"the mask source is {srcs} over {[norm(i.iter) for i in inner]}; expected {want} for every box "
+                  f"`indices` of pck.cells[lv]['indexes']", key="masks", where=loc(vi, mask_loop), semantic=len(srcs) == 1)
         aps = [norm(n) for n in ast.walk(mask_loop) if isinstance(n, ast.Expr) and ".append(" in norm(n)]
         ctx.check(aps == ["lv_masks.append(mask)", "covering_masks.append(lv_masks)"] or
                   sorted(aps) == ["covering_masks.append(lv_masks)", "lv_masks.append(mask)"], f"{P}.LEVEL-COH", site,
